@@ -433,6 +433,11 @@ theorem c13_translated_loops_bounded_table : Tr.allLoopsBounded = true := by dec
     for every waste type. -/
 theorem c13_translation_table_evaluated : Tr.tableEvaluated = true := by decide
 
+/-- a source that returns early (`return DigestResult(success=True)`) when the batch it took is empty: what is left of
+    the goal is "batch empty → the loop's closed form on the empty batch changes nothing" -/
+local macro "early_return_branch" : tactic =>
+  `(tactic| (intro hE; first | (rcases hE with hE | hE <;> simp_all [digClosed, dictUpdate]) | simp_all [digClosed, dictUpdate]))
+
 /-- `Lysosome.digest` as translated from the source, run on the concrete part of any model state, gives exactly the
     concrete part of the model's `digest` and the same `DigestResult` (success flag, recycled dict, disposed count,
     number of errors), for every `max_items` (None, 0, positive, negative). -/
@@ -443,8 +448,8 @@ theorem c13_translation_agrees_digest (cfg : Cfg) (s : State) (k : Option Int) :
     cases h : pyTruthyOInt k <;>
       simp only [Tr.digest, lysTr, h, pySliceTo_truthy, drop_length_take, Bool.false_eq_true, if_false, if_true]
     all_goals simp (disch := loop_body cfg) only [foldl_dig cfg]
-    · simp [pyDigestCore, sliceCount_falsy _ _ h, decide_nil_unit, decide_len0_unit]
-    · simp [pyDigestCore, decide_nil_unit, decide_len0_unit]
+    · simp [pyDigestCore, sliceCount_falsy _ _ h, decide_nil_unit, decide_len0_unit] <;> early_return_branch
+    · simp [pyDigestCore, decide_nil_unit, decide_len0_unit] <;> early_return_branch
   rw [h, pyDigestCore_conc]
   rfl
 
@@ -459,8 +464,8 @@ theorem c13_translation_agrees_ingest (cfg : Cfg) (hre : cfg.reent = true) (s : 
     cases h : pyTruthyOInt k <;>
       simp only [Tr.digest, lysTr, h, pySliceTo_truthy, drop_length_take, Bool.false_eq_true, if_false, if_true]
     all_goals simp (disch := loop_body cfg) only [foldl_dig cfg]
-    · simp [pyDigestCore, sliceCount_falsy _ _ h, decide_nil_unit, decide_len0_unit]
-    · simp [pyDigestCore, decide_nil_unit, decide_len0_unit]
+    · simp [pyDigestCore, sliceCount_falsy _ _ h, decide_nil_unit, decide_len0_unit] <;> early_return_branch
+    · simp [pyDigestCore, decide_nil_unit, decide_len0_unit] <;> early_return_branch
   have h : ∀ (p : PyS) (it : Item), Tr.ingest cfg p it = (pyIngest cfg p it, ()) := by
     intro p it
     simp only [Tr.ingest, lysTr, hd]
